@@ -60,7 +60,7 @@ def check(rep):
     stats = {"cases": len(cases), "open_ok": 0, "model_skipped": 0, "max_request_over_n": 0.0, "max_peak_over_n": 0.0}
     distinct = set()
     for profile in ("release", "debug"):
-        res = readcheck.run_both([c for _, c in cases], profile)
+        res = readcheck.run_both([c for _, c in cases], profile, revisit=False)
         for (label, c), (impl, model) in zip(cases, res):
             n = len(c["data"]) + len(c.get("frag", b""))
             if "dead" in impl:
